@@ -50,13 +50,20 @@ def verify_one(args):
         from contracts import load_all
         from pyvc import contract as C, solve, front
         solve.THOROUGH = thorough
+        budget = float(os.environ.get("VERIF_JOB_BUDGET_S", "1500" if thorough else "240"))
+        solve.DEADLINE[0] = time.time() + budget
         reg = load_all()
         con = reg[qual]
         if qual.startswith("body:"):
             res = C.verify_body(con, reg, initial=initial)
         else:
             res = C.verify(con, reg, initial=initial)
+        from pyvc import engine as _eng
         obls = []
+        if _eng.TRUNCATED:
+            obls.append({"name": "%s::exploration_complete" % qual, "verdict": "unknown", "backend": "none(time budget of the job exhausted)",
+                         "ms": 0, "kind": "vc", "detail": "%d path alternatives left unexplored" % sum(_eng.TRUNCATED), "model": None,
+                         "path": [], "known_ids": []})
         for o in res.obls:
             obls.append({"name": o.name, "verdict": o.verdict, "backend": o.backend, "ms": o.ms, "kind": o.kind,
                          "detail": o.detail, "model": frac_model(o.model), "path": o.path,
